@@ -26,7 +26,7 @@ for l in open(os.path.join(V, 'properties.jsonl')):
     if p['id'] in PLANNED:
         na.append({"property_id": p['id'], "reason": "simulation target (DESIGN.md §3); its check is not built yet, so it is not claimed"})
     else:
-        na.append({"property_id": p['id'], "reason": special.get(p['id'], R)})
+        na.append({"property_id": p['id'], "reason": "'" + p['title'] + "' (quantified over " + ", ".join(p['quantifier']['over']) + "): " + special.get(p['id'], R)})
 checks = []
 for c in CHECKS:
     i = c['property_id']
